@@ -55,8 +55,6 @@ theorem attemptReopen_sleeps (m : Base) (outs : List Bool) (w : Int) (prev : Nat
         · simp [sleeps] at hx
     · simp [attemptReopen, sleeps]; exact hw
 
-/-- an outage in which the first `k` reopen attempts fail and the next one succeeds -/
-def outageOuts (k : Nat) (rest : List Bool) : List Bool := List.replicate k false ++ true :: rest
 
 theorem attemptReopen_until_success (m : Base) (k : Nat) (rest : List Bool) (w : Int) (prev : Nat)
     (h : prev + k < m.maxReopenAttempts) :
@@ -106,4 +104,50 @@ theorem runner_budget_per_outage (m : Base) (ks : List Nat) (h : ∀ k ∈ ks, k
     · have : MEv.terminated ∉ handleClose m.policy false (outageOuts k []) := by
         intro hm; simp [endsRunner, hm] at b
       simp at d ⊢; exact ⟨this, d⟩
+
+/-- in the product of monitor instances, what transport `i`'s runner does is a function of monitor `i` alone -/
+theorem multi_independent (ms : List Inst) (as : List MAct) (i : Nat) (m : Inst) (hm : ms[i]? = some m) :
+    (multiRun ms as).filterMap (fun e => if e.1 = i then some e.2 else none) = singleRun m as i := by
+  induction as generalizing ms m with
+  | nil => simp [multiRun, singleRun]
+  | cons a as ih =>
+    cases a with
+    | outage t k =>
+      simp only [multiRun, multiStep, singleRun]
+      cases ht : ms[t]? with
+      | none =>
+        have hti : t ≠ i := by intro h; subst h; simp [hm] at ht
+        simp only [hti, if_false]
+        exact ih ms m hm
+      | some mt =>
+        simp only [List.filterMap_cons]
+        by_cases hti : t = i
+        · subst hti
+          rw [hm] at ht; cases ht
+          simp only [if_true]
+          congr 1
+          apply ih
+          have := (List.getElem?_eq_some_iff.mp hm).1
+          simp [List.getElem?_set, this]
+        · simp only [hti, if_false]
+          apply ih
+          rw [List.getElem?_set]; simp [hti, hm]
+    | setPolicy t b =>
+      simp only [multiRun, multiStep, singleRun]
+      cases ht : ms[t]? with
+      | none =>
+        have hti : t ≠ i := by intro h; subst h; simp [hm] at ht
+        simp only [hti, if_false]
+        exact ih ms m hm
+      | some mt =>
+        by_cases hti : t = i
+        · subst hti
+          rw [hm] at ht; cases ht
+          simp only [if_true]
+          apply ih
+          have := (List.getElem?_eq_some_iff.mp hm).1
+          simp [List.getElem?_set, this]
+        · simp only [hti, if_false]
+          apply ih
+          rw [List.getElem?_set]; simp [hti, hm]
 end FV.Monitor
